@@ -52,7 +52,14 @@ impl Distribution for DiscreteUniform {
 
 impl Distribution1D for DiscreteUniform {
     fn update(&mut self, params: &[f64]) {
-        self.set_lower(params[0] as i64).set_upper(params[1] as i64);
+        // validate the new pair as a whole: checking the new lower bound against the *old* upper
+        // bound would reject valid targets lying entirely above the current interval
+        let (lower, upper) = (params[0] as i64, params[1] as i64);
+        if lower > upper {
+            panic!("Upper must be larger than lower.")
+        }
+        self.lower = lower;
+        self.upper = upper;
     }
 }
 
